@@ -88,9 +88,12 @@ OUTER:
 		m.invalidateLatestSnapshotLOCKED()
 
 		stackCleanPrev = m.stackClean
-		if m.options.CachePersisted {
+		if m.options.CachePersisted && !m.stackDirtyBase.hasMergeOperations() {
 			m.stackClean = m.stackDirtyBase
 		} else {
+			// Unresolved merge operations cannot be cached as clean:
+			// the new lower level already includes their effect, and
+			// resolving them again on top of it would apply them twice.
 			m.stackClean = nil
 
 			stackDirtyBasePrev = m.stackDirtyBase
